@@ -51,10 +51,18 @@ package jsonexpr
 
 //@ func (Path).Equal
 //@   modifies nothing
+// Every label of the stage is looked at (the loop ends only when the map is exhausted or the raw
+// capture failed), and a label receives the value exactly when its path is the current one: two
+// labels that address the same object or array both get it, whatever order the map is walked in.
 //@ func (*extractor).tryMatchRaw
 //@   calls e.extract
+//@   capture cp = call(d.Capture, 0)
+//@   capture xt = call(e.extract, 0)
 //@   modifies nothing
 //@   loop 0 modifies raw
+//@   loop 0 exit_ensures[every-label-is-visited-unless-the-capture-fails] rangedone() || (cp_called && cp_r0 != nil)
+//@   capture eq = call(e.current.Equal, 0)
+//@   loop 0 body_ensures[a-label-at-the-current-path-receives-the-value] eq_called && same(eq_a0, p) && xt_called == eq_r0 && (xt_called ==> xt_a0 == label && xt_a1 == raw)
 //@ func (*extractor).tryMatchRaw$1
 //@   modifies raw
 
@@ -113,8 +121,12 @@ package jsonexpr
 // verbatim (no re-formatting), booleans as true / false, null as the empty string.
 //@ func (*extractor).matchLiteral
 //@   calls e.extract
+//@   capture xt = call(e.extract, 0)
 //@   modifies nothing
 //@   loop 0 modifies nothing
+//@   loop 0 exit_ensures[every-label-is-visited] rangedone()
+//@   capture eq = call(e.current.Equal, 0)
+//@   loop 0 body_ensures[a-label-at-the-current-path-receives-the-value] eq_called && same(eq_a0, p) && xt_called == eq_r0 && (xt_called ==> xt_a0 == label && xt_a1 == val)
 //@ func (*extractor).walk
 //@   calls e.extract
 //@   modifies e.current, e.current[*]
